@@ -182,6 +182,7 @@ type Exec struct {
 	accWant     map[string]accSpec      // allok("<target>", i) accumulators of the function under contract
 	resultWant  map[string]bool         // result("<target>@k", i) mentioned by the contract
 	callResults map[string]capturedCall // ... and the values the matching call returned
+	visComp    string            // visited-set ghost of the (last) map iteration of the function under contract
 	callCount  map[string]string // calls("<target>") counters of the function under contract: target -> private component
 }
 
@@ -941,6 +942,14 @@ func (x *Exec) execBody(fr *frame, st0 *State, reach0 string) ([]sval, *State, s
 				x.loopFrame(ct, ws, st0, st, reach, false, "", "")
 			}
 			if fr.top {
+				// visited sets of map iterations running in this loop: unknown at the head, the invariants say what is known
+				for _, c := range x.so.sortedComps() {
+					if strings.HasPrefix(c, "L_vis_") {
+						if _, ok := st.m[c]; ok {
+							st.set(c, x.freshConst(c+"_hv", x.so.comps[c]))
+						}
+					}
+				}
 				// call counters: whatever the body calls, the count only grows
 				for target, comp := range x.callCount {
 					if !x.loopCallsTarget(fn, ci.loopBody[b], target) {
